@@ -231,11 +231,14 @@ def run_case(case):
                                      rtol=tol, atol=tol, dt_min=case["T"] * 2.0 ** -12, options=opts)
             errs.append(err_of(ys))
         checks += 1
-        mono = all(b <= a * 1.10 + 1e-13 for a, b in zip(errs[:-1], errs[1:]))
         fail = None
         # a gain is only required when the loosest run's error is well above what the tightest tolerance asks for
         # (otherwise every tolerance accepts the same steps and there is nothing to shrink)
         yscale = max(1.0, float(torch.sqrt((exact ** 2).sum(1).mean())))
+        # tightening must not make things worse - but two errors that both lie below the tighter tolerance are ordered by
+        # chance (another step sequence on the same path), not by the controller
+        mono = all(b <= a * 1.10 + 1e-13 or b <= 3.0 * tol_b * yscale
+                   for a, b, tol_b in zip(errs[:-1], errs[1:], tols[1:]))
         gain_required = errs[0] > 50 * tols[-1] * yscale
         if gain_required:
             labels.append("adaptive_gain_required")
